@@ -24,7 +24,7 @@ struct listEl_st; struct listImpl_st;
 #define OLD_GROWS(l) (OLD_LEN(l) + 1 > OLD_SIZE(l))
 
 static int appendElement(KSI_List *list, void *obj)
-__CPROVER_requires(list != NULL && LIST_INV(list))
+__CPROVER_requires(list != NULL && LIST_INV(list) && g_live >= 1 && g_live < 100000)
 /* the harness recorded the elements at the witness indices */
 __CPROVER_requires(IMPLIES(g_lw < L_LEN(list), g_lold_w == L_EL(list, g_lw)) && IMPLIES(g_lv < L_LEN(list), g_lold_v == L_EL(list, g_lv)))
 /* result: OK, or out of memory exactly when the array had to grow and the allocation failed */
@@ -46,7 +46,10 @@ __CPROVER_ensures(IMPLIES(__CPROVER_return_value != KSI_OK,
 		LIST_INV(list) && L_LEN(list) == OLD_LEN(list) && L_SIZE(list) == OLD_SIZE(list) && L_ARR(list) == OLD_ARR(list) &&
 		IMPLIES(g_lw < L_LEN(list), L_EL(list, g_lw) == g_lold_w)))
 __CPROVER_ensures(list->pImpl == __CPROVER_old(list->pImpl))
+/* live-block accounting: growth swaps one array for another (the first growth adds one); otherwise unchanged */
+__CPROVER_ensures(g_live == __CPROVER_old(g_live) + ((__CPROVER_return_value == KSI_OK && OLD_GROWS(list) && OLD_ARR(list) == NULL) ? 1 : 0))
 __CPROVER_assigns(L_IMPL(list)->arr, L_IMPL(list)->arr_size, L_IMPL(list)->arr_len;
-		L_ARR(list) != NULL && L_LEN(list) < L_SIZE(list): L_IMPL(list)->arr[L_LEN(list)].ptr)
+		L_ARR(list) != NULL && L_LEN(list) < L_SIZE(list): L_IMPL(list)->arr[L_LEN(list)].ptr;
+		g_live)
 __CPROVER_frees(L_ARR(list));
 #endif
